@@ -60,7 +60,7 @@ class CallGen:
         r = self.r
         if env and r.random() < 0.35 and depth < 3:
             name, cls = r.choice(env)
-            return self.method_call(N(name), N(name), cls, r.choice(["m0", "m1", "m2", "m3", "gen", "cached"]), env, depth, allow_missing=False)
+            return self.method_call(N(name), N(name), cls, r.choice(["m0", "m1", "m2", "m3", "gen", "cached", "cached_cls"]), env, depth, allow_missing=False)
         v = r.choice([1, 2, 0.5, 10, True])
         if r.random() < 0.15:
             return ast.UnaryOp(op=ast.USub(), operand=C(3)), ast.UnaryOp(op=ast.USub(), operand=C(3))
@@ -123,7 +123,7 @@ class CallGen:
         k = r.random()
         name, cls = r.choice(env)
         if k < 0.45 or depth >= 3:
-            return self.method_call(N(name), N(name), cls, r.choice(["m0", "m1", "m2", "m3", "gen", "cached"]), env, depth)
+            return self.method_call(N(name), N(name), cls, r.choice(["m0", "m1", "m2", "m3", "gen", "cached", "cached_cls"]), env, depth)
         if k < 0.5:
             # a method of the typed object a registered function returns (its processor rebuilt the call node)
             fn, (lp, rcls) = sorted(self.m.funcs_typed.items())[0]
@@ -134,13 +134,27 @@ class CallGen:
             return self.method_call(fu, fx, rcls, r.choice(["m0", "m1", "m2", "m3"]), env, depth)
         if k < 0.55:
             return self.func_call(env, depth)
+        if k < 0.58:
+            # methods a model class inherits from one of python's own types (positional-only parameters: given by position)
+            self.builtin_base = getattr(self, "builtin_base", 0) + 1
+            hu, hx = self.method_call(N(name), N(name), cls, r.choice(["hits", "label"]), env, depth)
+            owner = "Hits" if hu.func.attr == "hits" else "Label"
+            meth = r.choice(["count", "index", "nhits"] if owner == "Hits" else ["upper", "zfill"])
+            params = self.m.sigs[(owner, meth)]
+            if meth == "nhits":
+                return self.method_call(hu, hx, owner, meth, env, depth, allow_missing=False)
+            given = [C(r.choice([1, 2, 3]))] * (1 if params else 0)
+            self.sites.append((len(params), depth))
+            u = ast.Call(func=attr(hu, meth), args=list(given), keywords=[])
+            x = ast.Call(func=attr(hx, meth), args=list(given) + [C(d) for _, _, d in params[1:]], keywords=[])
+            return u, x
         if k < 0.7:
             (a, ax), (b, bx) = self.scalar(env, depth), self.scalar(env, depth)
             op = r.choice([ast.Add(), ast.Mult(), ast.Sub()])
             return ast.BinOp(left=a, op=op, right=b), ast.BinOp(left=ax, op=op, right=bx)
         colls = self.m.COLLS[cls]
         if not colls:
-            return self.method_call(N(name), N(name), cls, r.choice(["m0", "m1", "m2", "m3", "gen", "cached"]), env, depth)
+            return self.method_call(N(name), N(name), cls, r.choice(["m0", "m1", "m2", "m3", "gen", "cached", "cached_cls"]), env, depth)
         cm = r.choice(colls)
         cu, cx = self.method_call(N(name), N(name), cls, cm, env, depth)
         elem = self.m.ELEM[cm]
@@ -201,7 +215,8 @@ def run_case(ctx, rnd, model, ds, i):
     if two_stage:
         # dictionary fields of a previous stage: the object arrives as v.ev
         # (a key written twice holds its last value, as in python)
-        stream = ds.Select("lambda e0: {'ev': e0, 'n': 1}" if rnd.random() < 0.7 else "lambda e0: {'ev': 1, 'n': 1, 'ev': e0}")
+        # (... and a key that is no identifier does not cost its neighbours their types)
+        stream = ds.Select(rnd.choice(["lambda e0: {'ev': e0, 'n': 1}", "lambda e0: {'ev': e0, 'n': 1}", "lambda e0: {'ev': 1, 'n': 1, 'ev': e0}", "lambda e0: {'ev': e0, 'n-jets': 1}", "lambda e0: {'class': 2, 'ev': e0, 0: 1}"]))
         bu, bx = g.scalar([("q0", "Event")], 1)
         if any(isinstance(x, ast.Lambda) and any(a.arg == v for a in x.args.args) for x in astx.walk_nodes(bu)):
             two_stage = False
@@ -263,6 +278,7 @@ def run_case(ctx, rnd, model, ds, i):
     ctx.count("outcome:emitted")
     ctx.count("call-sites", len(g.sites))
     ctx.count("operators-with-keyword-function", getattr(g, "kw_ops", 0))
+    ctx.count("methods-inherited-from-python-types", getattr(g, "builtin_base", 0))
     ctx.count(f"receiver-name:{model.receiver}")
     for n, d in g.sites:
         ctx.count(f"sites:params={n}:depth={min(d, 3)}")
